@@ -1,7 +1,9 @@
 import SignaloModel.Driver.Filters
 import SignaloModel.Driver.Floats
+import SignaloModel.Proofs.PeekProofs
 import SignaloModel.Model.Pipes
 import SignaloModel.Model.PipesSink
+import SignaloModel.Model.PipeRegistry
 /-!
 Driver, part 2: sources (C10), sinks (C11), pipes (C01); the line dispatcher.
 -/
@@ -93,17 +95,10 @@ def parseExprStr (s : String) : Option (Expr V) :=
 /-- answers of the plain machine to `k` pulls -/
 def exprPulls (e : Expr V) (k : Nat) : List (Option V) := pulls e.compile.src e.compile.st k
 
-/-- `Peek` on top of a machine: answers to a log of `peek` / `pull` operations -/
-def runPeekLog (s : Src V) : PeekState s → List String → List (Option V)
-  | _, [] => []
-  | p, op :: rest =>
-    if op == "peek" then (peekOp s p).1 :: runPeekLog s (peekOp s p).2 rest
-    else (peekPull s p).1 :: runPeekLog s (peekPull s p).2 rest
-
 def srcModelAnswer (i : SrcInst) (op : String) : Option V :=
   let log := i.log ++ [op]
   match i.top with
-  | "peek" => ((runPeekLog i.e.compile.src { st := i.e.compile.st, peeked := none } log).getLast?).getD none
+  | "peek" => ((runPeek i.e.compile.src { st := i.e.compile.st, peeked := none } (log.map (· == "peek"))).getLast?).getD none
   | _ =>
     -- plain / cache on top: `pull` answers in order; `cached` = the most recent answer (`none` before)
     let k := (log.filter (· == "pull")).length
@@ -115,7 +110,9 @@ def srcSpecAnswer (i : SrcInst) (op : String) : Option V :=
   let consumed := (i.log.filter (· == "pull")).length
   match op with
   | "cached" => if consumed == 0 then none else i.e.den.answer (consumed - 1)
-  | _ => i.e.den.answer consumed
+  | _ =>
+    if i.top == "peek" then ((peekSpec i.e.den 0 ((i.log ++ [op]).map (· == "peek"))).getLast?).getD none
+    else i.e.den.answer consumed
 
 def DState.getSrc (d : DState) (id : Nat) : Option SrcInst := (d.srcs.find? (·.1 == id)).map (·.2)
 def DState.putSrc (d : DState) (id : Nat) (i : SrcInst) : DState :=
@@ -271,14 +268,7 @@ partial def parseShape (cs : List Char) : Option (PShape × List Char) :=
   | _ => none
 
 /-- a registry filter as a stage of the generic pipe model (`none` = it panicked) -/
-def stageOf (st : St V) : Pipes.Stage V :=
-  { σ := Option (St V),
-    step := fun s x => match s with
-      | none => (none, V.err)
-      | some st => match st.filter [x] with
-        | some (st', [y]) => (some st', y)
-        | _ => (none, V.err),
-    st := some st }
+def stageOf (st : St V) : Pipes.Stage V := PipeRegistry.stageOf V.err st
 
 def sourceOf (e : Expr V) : Pipes.Source V :=
   { σ := e.compile.src.σ, next := e.compile.src.next, st := e.compile.st }
@@ -305,16 +295,11 @@ def toKShape (leaves : List (St V)) (k : Sk V) : PShape → Option (Pipes.KShape
   | _ => none
 
 /-- specification: feed the whole stream through the stages one after the other -/
-def seqSpec (leaves : List (St V)) (xs : List V) : List V :=
-  leaves.foldl (fun stream st =>
-    match st.run (stream.map (fun v => [v])) with
-    | some (_, ys) => ys.map (fun y => y.headD V.err)
-    | none => stream.map (fun _ => V.err)) xs
+def seqSpec (leaves : List (St V)) (xs : List V) : List V := PipeRegistry.seqSpec V.err leaves xs
 
 /-- per-stage invocation record demanded by the property: stage `j` sees the complete output stream of
 stage `j-1` (for source pipes: only the items, never the end marker) -/
-def seqLogs (leaves : List (St V)) (xs : List V) : List (List V) :=
-  (leaves.foldl (fun (acc : List (List V) × List V) st => (acc.1 ++ [acc.2], seqSpec [st] acc.2)) ([], xs)).1
+def seqLogs (leaves : List (St V)) (xs : List V) : List (List V) := PipeRegistry.seqLogs V.err leaves xs
 
 /-- the generic pipe model (`Pipes.Shape.run` etc.) evaluated from the initial state -/
 def pipeRunLast (leaves : List (St V)) (shape : PShape) (log : List V) : Option V :=
